@@ -7,6 +7,7 @@ from typing import TYPE_CHECKING, Any
 
 from xknx.core.value_reader import ValueReader
 from xknx.dpt import DPTArray, DPTBase, DPTBinary
+from xknx.exceptions import ConversionError
 from xknx.telegram import Telegram
 from xknx.telegram.address import DeviceAddressableType, parse_device_group_address
 from xknx.telegram.apci import GroupValueRead, GroupValueResponse, GroupValueWrite
@@ -106,4 +107,10 @@ def _parse_payload(
         return transcoder.to_knx(value)
     if isinstance(value, int):
         return DPTBinary(value)
-    return DPTArray(value)
+    try:
+        payload = DPTArray(value)
+    except TypeError as err:
+        raise ConversionError("Could not parse raw payload", value=str(value)) from err
+    if not payload.value:
+        raise ConversionError("Raw payload must not be empty", value=str(value))
+    return payload
